@@ -32,4 +32,4 @@ Definition path_type : string := "sy.validation.path".
 
 (* Payload.Unmarshal: true = strings.Split(d, "---") with len != 2 => unknown;
    false = strings.SplitN(d, "---", 2) *)
-Definition unmarshal_split_all : bool := true.
+Definition unmarshal_split_all : bool := false.
